@@ -437,6 +437,70 @@ def memaddr_lines(chk, infos, quick, byname):
     return lines
 
 
+def regconst_lines(chk, infos, quick, byname):
+    """MUL DIV UDIV MOD UMOD and the 32-bit forms whose second operand is a REGISTER defined in the function by `mov k, C`
+    (operand shape `k`): at -O2/-O3 the constant reaches the instruction through the SSA edge and transform_mul_div /
+    power2_int_op replace the instruction by shifts when C is a power of two.  C sweeps 2^k, -(2^k), 2^k+1, 2^k-1 for every
+    k (incl. the sign bit: INT64_MIN, INT32_MIN / 0x80000000 with any upper half for the S forms); the other operand sweeps the
+    boundary values of the width and of C.  Quick tier: every constant with k in {0,1,30,31,32,62,63} (S forms: 0,1,15,30,31)
+    of both signs x all boundary values, plus a seed-dependent sample of the rest.  Division by zero and INT_MIN / -1 have
+    no DocSpec result: the expectation is None and the case is not run (as for the other families)."""
+    rng = chk.rng('regconst')
+    lines = []
+    n = 0
+    for name in ('MUL', 'DIV', 'UDIV', 'MOD', 'UMOD', 'MULS', 'DIVS', 'UDIVS', 'MODS', 'UMODS'):
+        info = byname.get(name)
+        if info is None or not G.testable(info):
+            continue
+        w = 32 if name.endswith('S') else 64
+        M = (1 << w) - 1
+        top = [0, 1, 30, 31, 32, 62, 63] if w == 64 else [0, 1, 15, 30, 31]
+
+        def consts(k):
+            return [(1 << k) & M, (-(1 << k)) & M, ((1 << k) + 1) & M, ((1 << k) - 1) & M]
+
+        def values(k):
+            vs = [1 << (w - 1), (1 << (w - 1)) + 1, M, 0, 1, M >> 1, (1 << k) & M, (-(1 << k)) & M, ((1 << k) - 1) & M,
+                  (1 - (1 << k)) & M, M - 1, 2]
+            if w == 64:
+                vs += [0x80000000, 0x7fffffff, 0xffffffff, 0xffffffff80000000, 1 << 32]
+            out = []
+            for v in vs:
+                if v not in out:
+                    out.append(v)
+            return out
+
+        def hi(v):      # S forms: arbitrary upper half of the register
+            if w == 64:
+                return v
+            return v | (rng.choice([0, 0xffffffff, (0xffffffff if v >> 31 else 0), rng.getrandbits(32)]) << 32)
+        rest = [k for k in range(w) if k not in top]
+        todo = []
+        for k in top:
+            for c in consts(k)[:2]:
+                todo += [(c, v, k) for v in values(k)]
+            for c in consts(k)[2:]:
+                todo += [(c, v, k) for v in (values(k) if not quick else rng.sample(values(k), 3))]
+        for k in (rest if not quick else rng.sample(rest, 6 if w == 64 else 4)):
+            for c in consts(k):
+                todo += [(c, v, k) for v in (values(k) if not quick else rng.sample(values(k), 5))]
+        for (c, v, k) in todo:
+            if c == 0 and 'MUL' not in name:
+                continue
+            n += 1
+            swap = 'MUL' in name and rng.random() < 0.25
+            ops = ['r:%x' % hi(v), 'k:%x' % hi(c)]
+            vals, shapes = [v, c], ['r', 'k']
+            if swap:
+                ops.reverse(); vals.reverse(); shapes.reverse()
+            dst = 'r' if rng.random() < 0.8 else ('y' if swap else 'x')
+            lines.append(G.gen_case(info, rng, 'rk%d' % n, vals=vals, shapes=shapes, dst=dst, optexts=ops, press=0))
+            cu = c if c < (1 << (w - 1)) else (1 << w) - c
+            chk.dist('regconst', '%s %s' % (name, 'sign bit' if c == 1 << (w - 1) else 'power of two' if c & (c - 1) == 0 else
+                                            'minus power of two' if cu & (cu - 1) == 0 else 'power of two +-1'))
+    return lines
+
+
 def generate(chk, infos, quick, c20=False):
     G.WIDE_SCALES[0] = not c20
     rng = chk.rng('cases')
@@ -546,6 +610,7 @@ def generate(chk, infos, quick, c20=False):
     lines += conversion_lines(chk, infos, quick, c20, byname)
     if not c20:
         lines += memaddr_lines(chk, infos, quick, byname)
+        lines += regconst_lines(chk, infos, quick, byname)
     return lines
 
 
